@@ -2,6 +2,7 @@ pub mod c01;
 pub mod c02;
 pub mod c03;
 pub mod c07;
+pub mod c08;
 pub mod c09;
 pub mod c10;
 pub mod c11;
@@ -23,6 +24,7 @@ pub fn dispatch(prop: &str) -> Option<(RunFn, ReplayFn)> {
         "C02" => (c02::run, c02::replay),
         "C03" => (c03::run, c03::replay),
         "C07" => (c07::run, c07::replay),
+        "C08" => (c08::run, c08::replay),
         "C09" => (c09::run, c09::replay),
         "C10" => (c10::run, c10::replay),
         "C11" => (c11::run, c11::replay),
